@@ -35,8 +35,8 @@ CLAIMS["C11"] = dict(
     ref="DESIGN.md §5 C11",
 )
 CLAIMS["C18"] = dict(
-    text="read_from of VecZnx / ScalarZnx / MatZnx on streams whose every byte is symbolic (all header words incl. products overflowing usize), at every enumerated truncation point: no panic/overflow/out-of-bounds, Err leaves the metadata unchanged, Ok leaves dimensions consistent with the buffer (size <= max_size, n*cols*max_size*8 within the buffer) and accessors in bounds; write->read round trips into equal, larger and re-used receivers reproduce content and dimensions. The poulpy-core wrappers GLWE, LWE and GLWECompressed are decided on fully symbolic streams too: Err leaves every metadata field (base2k, rank, seed, dimensions) unchanged, Ok leaves dimensions consistent with the buffer.",
-    note="Small concrete receivers; stream length enumerated (field boundaries +-1). std::fmt::format stubbed (error messages), io::Result forgotten. The other poulpy-core wrappers (GGLWE/GGSW/keys, compressed matrices) and the poulpy-bin-fhe key readers are not encoded.",
+    text="read_from of VecZnx / ScalarZnx / MatZnx on streams whose every byte is symbolic (all header words incl. products overflowing usize), at every enumerated truncation point: no panic/overflow/out-of-bounds, Err leaves the metadata unchanged, Ok leaves dimensions consistent with the buffer (size <= max_size, n*cols*max_size*8 within the buffer) and accessors in bounds; write->read round trips into equal, larger and re-used receivers reproduce content and dimensions. The poulpy-core wrappers GLWE, LWE and GLWECompressed are decided on fully symbolic streams too: Err leaves every metadata field (base2k, rank, seed, dimensions) unchanged, Ok leaves dimensions consistent with the buffer. poulpy-bin-fhe BlindRotationKey (1-2 GGSW elements): never a panic, Err leaves the recorded distribution unchanged, Ok only when the stream announces exactly the receiver's number of elements.",
+    note="Small concrete receivers; stream length enumerated (field boundaries +-1). std::fmt::format stubbed (error messages), io::Result forgotten. The other poulpy-core wrappers (GGLWE/GGSW/keys, compressed matrices) and the other poulpy-bin-fhe key readers are not encoded.",
     technique=KANI + "; stream bytes fully symbolic",
     ref="DESIGN.md §5 C18",
 )
@@ -78,7 +78,7 @@ CLAIMS["C02"] = dict(
 )
 CLAIMS["C16"] = dict(
     text="CKKS metadata algebra and error paths: the crate's budget/alignment helpers are decided on arbitrary metadata (Ok exactly under the documented condition with the documented value, Err otherwise, no overflow); the product-free operations (add/sub ct-ct, negate, multiply/divide by 2^bits in both forms) run through the public traits on a marker module with symbolic normalised limbs, exact-size symbolic scratch, concrete operand metadata grids (aligned, unequal budgets, destinations of fewer limbs) and bits from {small values, 2^64-2, 2^64-1}: never panic, Err exactly when the remaining budget cannot absorb the request, on Ok the result metadata follows the documented algebra with log_delta+log_budget within the stored precision, and for add/sub the result value equals a +- b at the result's precision.",
-    note="Calibrated allow-list of shapes (several add/sub shapes with unequal budgets exceed the memory cap and are not claimed). Slot encoding/decoding, the multiplication family, rotate/conjugate (key-switching through the DFT) and random programs are outside. anyhow's fmt/backtrace construction is stubbed.",
+    note="All add/sub shapes of the grid (unequal budgets, narrower destinations) are claimed; the unary family keeps a calibrated allow-list. Slot encoding/decoding, the multiplication family, rotate/conjugate (key-switching through the DFT) and random programs are outside. anyhow's fmt/backtrace construction is stubbed.",
     technique=KANI + "; public CKKS traits on a marker module, metadata helpers on symbolic metadata",
     ref="DESIGN.md §5 C16",
 )
@@ -105,6 +105,12 @@ CLAIMS["C07"] = dict(
     note="NARROW: IEEE-754 exactness of the FFT (symbolic floating-point products), the NTT120 family and the bivariate convolution are not encoded; nothing is claimed about numeric exactness or magnitude domains.",
     technique=KANI + "; generic reference functions instantiated with substituted exact integer kernels",
     ref="DESIGN.md §5 C07",
+)
+CLAIMS["C04"] = dict(
+    text="Ring-generic part of the GLWE external product, decided over the ring in which the substituted backend multiplies: the real glwe_external_product / glwe_external_product_assign of poulpy-core (gadget decomposition into digits, dsize grouping, vector-matrix product with the prepared GGSW, limb/scale bookkeeping, normalisation) run on Module<Probe> at N=8 with a GGSW produced by the real ggsw_encrypt_sk + ggsw_prepare (concrete small m2, concrete ternary secret, zero noise); the solver decides glwe_decrypt(external_product(ct, GGSW(m2)), s) == m2 (*) glwe_decrypt(ct, s) exactly on the torus, (*) being the product of Z[i]^4 computed by a big-integer oracle that knows nothing of gadgets or limbs; exact-size symbolic scratch, symbolic prior output, input ciphertext = fixed digit pattern with 2 symbolic words (all words: thorough tier).",
+    note="NARROW and over the SUBSTITUTED ring: at N>=8 the exact-kernel backend multiplies in Z[i]^(N/2), not in Z[X]/(X^N+1); that the real FFT backend computes the negacyclic product is C07's numeric clause and is not decided anywhere. CMux, GGLWE/GGSW external products, GGSW row expansion and noise bounds are outside.",
+    technique=KANI + "; real poulpy-core code on a substituted-kernel backend, ring-generic statement against a big-integer oracle of the substituted ring",
+    ref="DESIGN.md §10.7",
 )
 NA = {
     "C04": "The statement is about the VALUE m1*m2 in Z[X]/(X^N+1). External products need vector-matrix products, which exist only for N>=8; there the exact-kernel backend this work can run under CBMC (Module<Probe>) multiplies in Z[i]^(N/2), not in the negacyclic ring, and the real FFT is symbolic floating point out of reach. What is decidable of the external product (exact declared scratch, independence of scratch and prior output, in-place = out-of-place) is decided under C11/C12 (core.external_product*); a ring-generic m1*m2 statement over the substituted ring would need a GGSW encryptor harness that was not built in the time available.",
@@ -139,7 +145,7 @@ m = {
         "guard": "verif-hooks (cargo feature of the same name on poulpy-bin-fhe, poulpy-core and poulpy-ckks; off by default, not a default feature of any crate)",
         "enable": "harness crates hk_core / hk_ckks / hk_binfhe and smt/bdd_dump depend on the /repo crates by path with features=[\"verif-hooks\"]; hk_hal and hk_avx need no hook",
         "baseline_off_cmd": "cd /repo && cargo test --workspace --no-fail-fast --offline",
-        "source_commits": ["87db623", "9db2020", "6ee2064", "a8383a3", "fbcca4f", "3ebb77d"],
+        "source_commits": ["87db623", "9db2020", "6ee2064", "a8383a3", "fbcca4f", "3ebb77d", "3e33c58"],
         "add_only": True,
     },
     "engines": [
